@@ -38,6 +38,8 @@ PATCHES = {
     "jmpL2": ("jmp L2", {}, "jmp"),
     "ret": ("ret", {}, "ret"),
     "callg": ("call g", {}, "call"),
+    # a call to the function the patch is inserted into (recursion)
+    "callf": ("call f", {}, "call"),
     "jcc": ("je L2", {}, "jcc"),
     "lab": ("nop\nP1:\nnop", {"P1": 1}, None),
     "lab0": ("P0:\nnop", {"P0": 0}, None),
